@@ -114,6 +114,16 @@ def agreement(ctx, p):
             arms_v = dict(zip(tv['vals'], tv['ts']))
             arms_a = dict(zip(ta['vals'], ta['ts']))
             gets = [bi for bi, t in vb.calls() if call_matches(t, ['core::slice::<impl [T]>::get', 're:Vec.*::get$']) and '.DbInner.columns' in lib.receiver_fields(vb, t, 0)]
+            # (the bounds check may sit in a helper of the validation pass: its call stands for the check if every success return of the
+            # helper has passed `columns.get`)
+            for bi, t in vb.calls():
+                for nm_ in core.call_names(t):
+                    hb_ = F.bodies.get(nm_)
+                    if hb_ is None or hb_ is vb or bi in gets:
+                        continue
+                    hg = [x for x, t2 in hb_.calls() if call_matches(t2, ['core::slice::<impl [T]>::get', 're:Vec.*::get$']) and '.DbInner.columns' in lib.receiver_fields(hb_, t2, 0)]
+                    if hg and lib.ok_return_unreachable_avoiding(hb_, hg) is None:
+                        gets.append(bi)
             idxs = [bi for bi, t in ab.calls() if call_matches(t, ['re:Index<usize>>::index$', 're:Vec<column::Column> as std::ops::Index']) and '.DbInner.columns' in lib.receiver_fields(ab, t, 0)]
             nx = [s for s in vb.call_sites("log::LogReader::<'a>::next") if s in vb.reaches(vsw) and vsw in vb.reaches(s)]
             goal = set(nx) | (set(rs) if vb is el else set(vb.return_blocks()))
